@@ -23,6 +23,17 @@ Import ListNotations.
 FIELDS = ["kind", "S", "cls", "ob", "store", "cands", "sched", "recv", "mode"]
 
 
+def ensure_cargo_cfg():
+    """alternative workspaces: make sure the copied harness is built with the hook guard (--cfg similari_verif)"""
+    if vlib.ALT:
+        src = open(os.path.join(vlib.ROOT, "harness", ".cargo", "config.toml")).read()
+        want = src.replace(os.path.join(vlib.CACHE, "target"), vlib.TARGET_DIR)
+        cc = os.path.join(vlib.HARNESS, ".cargo", "config.toml")
+        if not os.path.exists(cc) or open(cc).read() != want:
+            with open(cc, "w") as fh:
+                fh.write(want)
+
+
 # ---------------------------------------------------------------------------------------------------------
 # parsing
 
@@ -179,7 +190,13 @@ def oracle(r):
         else:
             bad.append(("C10:foreign-query-wrong-multiset", what))
     if key_sort(r["err"]) != key_sort(err) or r["other_err"]:
-        bad.append(("C10:error-stream", "error stream differs: got %s (+%d other) expected %s" % (key_sort(r["err"]), r["other_err"], key_sort(err))))
+        what = "error stream differs: got %s (+%d other) expected %s" % (key_sort(r["err"]), r["other_err"], key_sort(err))
+        missing = Counter(err) - Counter(r["err"])
+        ids = set(t["id"] for t in effective_cands(r)) if r["kind"] == "owned" else set()
+        if any(a in ids and b in ids for a, b, _ in missing.elements()):
+            bad.append(("C10:owned-query-misses-pairs", "queried tracks are not compared with one another: " + what))
+        else:
+            bad.append(("C10:error-stream", what))
     if r["after"] != expected_after(r):
         bad.append(("C10:store-changed", "the store is not unchanged after the query: %s expected %s" % (r["after"], expected_after(r))))
     return bad
@@ -371,6 +388,7 @@ def run(chk):
     if chk.tier == "thorough":
         vlib.coqchk_stage(chk, "Similari.Props.C10")
 
+    ensure_cargo_cfg()
     ok, out = vlib.harness_build(["sched"])
     if not ok:
         chk.broken.append("harness build failed:\n" + out[-2000:])
@@ -486,6 +504,7 @@ def run(chk):
 
 def replay(chk, path):
     rep = json.load(open(path))
+    ensure_cargo_cfg()
     ok, out = vlib.harness_build(["sched"])
     text = rep.get("input") or rep.get("correspondence_case") or rep.get("trace_case")
     r = run_text(text)
